@@ -1,9 +1,9 @@
 #!/bin/sh
 # quick (or $TIER) sweep of every registered check over several seeds on the current tree; evidence files are
-# restored afterwards when KEEP_EVIDENCE is not set.  usage: tools/sweep.sh "0 1 2" [quick|thorough]
+# restored afterwards when KEEP_EVIDENCE is not set.  usage: [PROPS="C01 C05"] tools/sweep.sh "0 1 2" [quick|thorough]
 cd "$(dirname "$0")/.."
 SEEDS="${1:-0 1 2}"; TIER="${2:-quick}"
-for p in C01 C02 C03 C04 C05 C06 C07 C08 C09 C10 C11 C12 C13 C14 C15 C16 C17 C18 C19 C20; do
+for p in ${PROPS:-C01 C02 C03 C04 C05 C06 C07 C08 C09 C10 C11 C12 C13 C14 C15 C16 C17 C18 C19 C20}; do
   for s in $SEEDS; do
     out=$(VERIF_SEED=$s /venv/bin/python -m rv.check $p --tier $TIER 2>&1); rc=$?
     echo "$p seed=$s rc=$rc $(echo "$out" | head -1)"
